@@ -1,6 +1,7 @@
 """C17 - Keyset derivation is a deterministic standard function of (keyset, salt)."""
 import collections
 import json
+import os
 
 import vlib
 
@@ -11,6 +12,20 @@ USES = {"use_aead", "use_sign", "use_mac", "use_daead", "use_prf", "use_stream"}
 def _flip_hex(h, rng):
     i = rng.randrange(len(h))
     return h[:i] + ("0" if h[i] != "0" else "1") + h[i + 1:]
+
+
+def _shapes(ctx):
+    """(R) spec -> code: TLC enumerates EVERY well-formed keyset shape (status x key-type class x primary position) of up
+    to 3 (quick) / 4 (thorough) keys from PRFSet!WellFormed; the driver instantiates each with real keys."""
+    path = os.path.join(ctx.scratch, "shapes.ndjson")
+    r = ctx.tlc("Plan_KeysetShapes", env=dict(VERIF_SHAPES=path, VERIF_MAXKEYS=4 if ctx.thorough else 3, VERIF_TYPES=3),
+                workers=1, timeout=1200)
+    if not r.ok or not os.path.exists(path):
+        raise vlib.Infra("Plan_KeysetShapes failed: %s" % (r.error or r.out[-1500:]))
+    n = sum(1 for x in open(path) if x.strip())
+    ctx.stage("R:Plan_KeysetShapes", shapes=n, max_keys=4 if ctx.thorough else 3)
+    ctx.add_states(r)
+    return path, n
 
 
 def corrupt(ev, rng):
@@ -70,13 +85,16 @@ def _sig(e, bad):
     return "keyderivation/%s %s" % (k, bad[0])
 
 
-def _coverage(ctx, trace):
+def _coverage(ctx, trace, n_shapes):
     c = collections.Counter()
     types, used, variants = set(), set(), set()
     multi = 0
+    planned = set()
     for line in open(trace):
         e = json.loads(line)
         c[e["ev"]] += 1
+        if e["ev"] == "derive" and e.get("route") == "plan":
+            planned.add(json.dumps(e["ks"]))
         if e["ev"] == "derive" and e["ok"]:
             for x in e["ks"]:
                 types.add(x["d"]["type"])
@@ -89,6 +107,9 @@ def _coverage(ctx, trace):
                 raise vlib.Infra("C17: a derived key the driver expected to be usable has no primitive: %s"
                                  % json.dumps(vlib._shorten(e)))
             used.add(e.get("type"))
+    if len(planned) != n_shapes:
+        raise vlib.Infra("C17: %d of the %d keyset shapes enumerated by TLC were executed" % (len(planned), n_shapes))
+    ctx.cov["keyset_shapes_executed"] = "%d/%d" % (len(planned), n_shapes)
     if types != TYPES:
         raise vlib.Infra("C17: derivable key types not all covered: missing %s" % sorted(TYPES - types))
     if used != TYPES:
@@ -107,7 +128,8 @@ def run(ctx):
     ctx.cov["rule"] = (
         "deriver keysets = every derivable key type (AES-GCM, XChaCha20-Poly1305, AES-SIV, HMAC, HKDF-PRF, HMAC-PRF, Ed25519, "
         "AES-GCM-HKDF streaming) x variant x parameter class x HKDF-PRF hash/salt class/key size x key id (incl. 0, 2^31, "
-        "2^32-1), as single-key keysets and as generated multi-key keysets (2..5 keys, ENABLED/DISABLED/DESTROYED, primary "
+        "2^32-1), as single-key keysets, as EVERY keyset shape TLC enumerates (Plan_KeysetShapes: status x derived-key class x "
+        "primary position, up to 3 keys quick / 4 thorough), as keysets generated by the library from key templates and as generated multi-key keysets (2..5 keys, ENABLED/DISABLED/DESTROYED, primary "
         "position, shared PRF keys, mixed primitive families) x caller salt classes (nil, empty, 1..1000 bytes); each "
         "DeriveKeyset is run twice (equal salts), against a changed salt / PRF key / PRF salt, through the per-key "
         "constructor, and the derived handle is used through the ordinary primitive of its type; the internal per-type "
@@ -125,9 +147,10 @@ def run(ctx):
         for m in mism:
             ctx.violation("replay", "%s (spec expected %s)" % (m["bad"][0], str(m["bad"][1:])[:200]), dict(event=m["event"], spec_says=m["bad"]))
         return
-    r = ctx.run([drv, "-out", trace])
+    shapes, n_shapes = _shapes(ctx)
+    r = ctx.run([drv, "-out", trace, "-shapes", shapes])
     ctx.log(r.stdout.strip())
-    _coverage(ctx, trace)
+    _coverage(ctx, trace, n_shapes)
     import random
     lines = open(trace).read().splitlines()
     random.Random(ctx.seed).shuffle(lines)          # events are independent: balance the TLC shards
